@@ -1,1 +1,53 @@
-import Gopki.Model.V1
+import Gopki.Model.Db
+/-! # C06 — extension list, criticality and raw values reach the certificate unchanged -/
+namespace C06
+open Gen Config
+
+/-- base64 of any byte string decodes to that byte string (strict decoder; any length) -/
+theorem C06_b64_any_length (bs : List UInt8) : B64.dec (B64.enc bs) = some bs := B64.dec_enc bs
+
+/-- a raw (`ConstantBuilder`) extension compiles to exactly itself: OID, critical flag and value bytes -/
+theorem C06_constant_compiles_to_itself (e : Cert.Ext) (ctx : Context) (iss : IssuerContext) :
+    compile (.constant e) ctx iss = .ok e := rfl
+
+theorem mapM_constant (ctx : Context) (iss : IssuerContext) : ∀ (es : List Cert.Ext),
+    (es.map Builder.constant).mapM (compile · ctx iss) = .ok es
+  | [] => rfl
+  | e :: es => by
+    have ih := mapM_constant ctx iss es
+    simp only [List.map_cons, List.mapM_cons, bind, Except.bind]
+    rw [ih]
+    rfl
+
+/-- **order, OID, critical flag and value are kept**: a body whose builders are constants (raw values and all
+    content kinds except the two hashed key identifiers) is signed with exactly that extension list, in that order,
+    for lists of any length -/
+theorem C06_extensions_in_order (ctx : Context) (iss : IssuerContext) (alg : Nat) (es : List Cert.Ext)
+    (hb : ctx.builders = es.map Builder.constant) (tbs : Tbs) (outer : AlgId) (k : PrivKey)
+    (h : signBody ctx iss alg = .ok (tbs, outer, k)) : tbs.exts = es := by
+  unfold signBody at h
+  split at h
+  · simp at h
+  · split at h
+    · simp at h
+    · rw [hb, mapM_constant] at h
+      simp only at h
+      split at h
+      · simp at h
+      · simp only [Except.ok.injEq, Prod.mk.injEq] at h
+        obtain ⟨h1, _, _⟩ := h
+        subst h1; rfl
+
+/-- `commonExtensionHandler`: a raw value becomes a constant extension with the extension's OID, the configured
+    critical flag and exactly the decoded bytes -/
+theorem C06_raw_handler (e : V1.Ext) (oid : Oid) (b : Der.Bytes) (hraw : e.raw.isEmpty = false)
+    (hnc : e.content.exists_ = false) (hr : V1.readRawString e.raw = .ok b) :
+    V1.commonExtensionHandler e oid = .ok (some (.constant ⟨oid, e.critical, b⟩)) := by
+  unfold V1.commonExtensionHandler
+  simp [hraw, hnc, hr, bind, Except.bind, pure, Except.pure]
+
+/-- `!null` and `!empty` -/
+theorem C06_null_empty : V1.readRawString "!null" = .ok [5, 0] ∧ V1.readRawString "!empty" = .ok [] := by
+  constructor <;> rfl
+
+end C06
